@@ -252,10 +252,11 @@ Definition kv_eqb (a b : bytes * bytes) : bool :=
 Definition kvmap_eqb (a b : kvmap) : bool := list_eqb kv_eqb a b.
 
 (* ---------- Apply with a known root (root_cache.go:25-62) ---------- *)
-Inductive acode := AOk | AFollow | AMismatch | AOther.
+Inductive acode := AOk | AFollow | AMismatch | AOther
+                 | ASkipped.   (* storage worker only: the root was already there, nothing applied *)
 Definition acode_eqb (a b : acode) : bool :=
   match a, b with
-  | AOk, AOk | AFollow, AFollow | AMismatch, AMismatch | AOther, AOther => true
+  | AOk, AOk | AFollow, AFollow | AMismatch, AMismatch | AOther, AOther | ASkipped, ASkipped => true
   | _, _ => false
   end.
 
@@ -323,6 +324,33 @@ Section Apply.
                   else (d ++ [(dst, new)], AOk)               (* commit.go:116-138 *)
              else (d, AMismatch)                              (* root_cache.go:51-52 *)
          end.
+
+  (* The storage worker's diff sync of one root of a round
+     (go/worker/storage/committee/worker.go): fetchDiff (367-411) skips roots
+     the local database already has, uses the EMPTY log when the announced
+     root has the hash of the previous one (without asking anybody), and
+     otherwise takes whatever a peer answered; the main loop (1139-1172) applies
+     it with the expected root: success, ErrExpectedRootMismatch = bad peer
+     (retry with another one), any other error = retry. *)
+  Definition sync_root (strict : bool) (fin : option N) (d : db) (prev this : root)
+    (peer : writelog) : db * acode :=
+    if has_root d this then (d, ASkipped)                           (* worker.go:383-385 *)
+    else
+      let wl := if digest_eqb (r_hash this) (r_hash prev) then [] else peer in   (* 392-396 *)
+      apply strict fin d prev this wl.                              (* 1143-1151 *)
+
+  Definition accepted (c : acode) : bool :=
+    match c with AOk | ASkipped => true | _ => false end.
+
+  (* retry with the answers of further peers until one is accepted *)
+  Fixpoint sync_with_peers (strict : bool) (fin : option N) (d : db) (prev this : root)
+    (answers : list writelog) : db * bool :=
+    match answers with
+    | [] => (d, false)
+    | wl :: r =>
+        let (d', c) := sync_root strict fin d prev this wl in
+        if accepted c then (d', true) else sync_with_peers strict fin d' prev this r
+    end.
 End Apply.
 
 Arguments mkRoot {digest}.
@@ -339,7 +367,10 @@ Arguments r_hash {digest}.
 Definition croot := root kvmap.
 Definition capply := apply kvmap kvmap_eqb (fun m => m).
 
-Record attempt := mkAttempt { at_src : croot; at_dst : croot; at_wl : writelog }.
+Definition csync := sync_root kvmap kvmap_eqb (fun m => m).
+
+(* [at_worker]: the attempt goes through the storage worker's decision *)
+Record attempt := mkAttempt { at_src : croot; at_dst : croot; at_wl : writelog; at_worker : bool }.
 
 (* run the attempts in order on one database; report the code and whether the
    expected root is stored afterwards *)
@@ -347,7 +378,7 @@ Fixpoint run_attempts (strict : bool) (fin : option N) (d : db kvmap) (l : list 
   match l with
   | [] => []
   | a :: r =>
-      let (d', c) := capply strict fin d (at_src a) (at_dst a) (at_wl a) in
+      let (d', c) := (if at_worker a then csync else capply) strict fin d (at_src a) (at_dst a) (at_wl a) in
       (c, has_root kvmap kvmap_eqb (fun m => m) d' (at_dst a)) :: run_attempts strict fin d' r
   end.
 
